@@ -4,6 +4,8 @@ checks = {
  "C02": ("model_checking", "TLC checks positivity/asset/name of every posting of the semantics on bounded program families and of every real posting (per statement, attributed by the hook) of generated executions incl. negative caps, kept, negative balances.", "4, C02", "TLC trace validation of real runs + design-level TLC model checking"),
  "C03": ("model_checking", "TLC proves the capacity lemma (draw is greedy up to an independently stated capacity; failure iff amount exceeds it) on the exhaustive source family and judges real per-statement sums and the MissingFunds biconditional against it on generated fixed-amount sends.", "4, C03", "TLC trace validation of real runs against Sem.tla + design-level TLC model checking"),
  "C04": ("model_checking", "TLC proves greedy-draw lemmas on the exhaustive source family (both modes) and compares real per-account debit totals with the specification's draw on a corpus whose destination is one plain account.", "4, C04", "TLC trace validation of real runs against Sem.tla + design-level TLC model checking"),
+ "C06": ("model_checking", "TLC proves the share lemmas (sum, floor/floor+1, leftmost +1s, remaining, rejected sums) for every portion vector over small denominators x totals against an independent statement; Apalache proves them for symbolic n in Nat per vector (beyond 2^64); real single-allotment sends (literal, percent, variable portions; both sides) are judged by TLC.", "4, C06", "TLC model checking + Apalache (unbounded n) + TLC trace validation of real runs"),
+ "C07": ("model_checking", "Reconcile.tla (small-step machine of reconciler.go) is model-checked to refine the declarative pairing Sem!Pair incl. kept spanning several senders and termination; TLC prints every initial state (all short lists) and the real interpreter.Reconcile is run on each and judged by TLC; whole sends are judged on flow matrices.", "4, C07", "TLC refinement check + TLC-generated behaviours replayed into interpreter.Reconcile + TLC trace validation"),
  "C05": ("model_checking", "TLC proves clause-by-clause distribution lemmas on the exhaustive destination family and compares real per-account credit totals with the specification's distribution on a corpus drawn from @world.", "4, C05", "TLC trace validation of real runs against Sem.tla + design-level TLC model checking"),
 }
 m = {
